@@ -579,3 +579,185 @@ def numeric_token_table(ctx, clause):
                       "bare token %s -> %s" % (tok, want.split("#")[1]) if ok else
                       "bare token %s: expected %s, code gives %s" % (tok, want, got if got else outs)))
     return obs
+
+
+# ------------------------------------------------------------------------- document tables of the two streaming readers
+XS = "http://www.w3.org/2001/XMLSchema#"
+RDFNS = "http://www.w3.org/1999/02/22-rdf-syntax-ns#"
+TYPE = RDFNS + "type"
+
+
+def _I(x):
+    return ("IRI", x)
+
+
+def _B(x):
+    return ("BNode", x)
+
+
+def _L(lex, dt):
+    return ("Literal", lex, dt)
+
+
+# (label, document, expected triples | "raise"): what a standard Turtle parser produces for documents of the reader's dialect
+TTL_DOCS = [
+    ("prefixes, ';' and ',' abbreviations, typed and tagged literals",
+     '@prefix ex: <http://example.org/> .\n'
+     'ex:a a ex:Person ;\n'
+     '   ex:name "Alice"@en ;\n'
+     '   ex:age "30"^^<http://www.w3.org/2001/XMLSchema#int> ;\n'
+     '   ex:knows ex:b , ex:c .\n'
+     'ex:b ex:name "Bob" .\n',
+     [(_I("http://example.org/a"), TYPE, _I("http://example.org/Person")),
+      (_I("http://example.org/a"), "http://example.org/name", _L("Alice", RDFNS + "langString")),
+      (_I("http://example.org/a"), "http://example.org/age", _L("30", XS + "int")),
+      (_I("http://example.org/a"), "http://example.org/knows", _I("http://example.org/b")),
+      (_I("http://example.org/a"), "http://example.org/knows", _I("http://example.org/c")),
+      (_I("http://example.org/b"), "http://example.org/name", _L("Bob", XS + "string"))]),
+    ("line breaks between the terms of one statement, comment lines, blank lines",
+     '@prefix ex: <http://example.org/> .\n'
+     '# a comment line\n'
+     '\n'
+     'ex:a\n'
+     '   ex:p ex:b ;\n'
+     '   ex:q "v" # trailing comment\n'
+     '   .\n',
+     [(_I("http://example.org/a"), "http://example.org/p", _I("http://example.org/b")),
+      (_I("http://example.org/a"), "http://example.org/q", _L("v", XS + "string"))]),
+    ("prefix labels that look like directives (base:, prefix:), full IRIs, blank nodes",
+     '@prefix base: <http://example.org/base/> .\n'
+     '@prefix prefix: <http://example.org/prefix/> .\n'
+     'base:doc1 <http://purl.org/dc/terms/title> "t" .\n'
+     'prefix:x <http://example.org/p> _:b1 .\n'
+     '_:b1 <http://example.org/p> base:doc1 .\n',
+     [(_I("http://example.org/base/doc1"), "http://purl.org/dc/terms/title", _L("t", XS + "string")),
+      (_I("http://example.org/prefix/x"), "http://example.org/p", _B("_:b1")),
+      (_B("_:b1"), "http://example.org/p", _I("http://example.org/base/doc1"))]),
+    ("@base and relative IRIs, bare numbers",
+     '@base <http://example.org/> .\n'
+     '@prefix ex: <http://example.org/> .\n'
+     '<doc1> ex:p <doc2> .\n'
+     '<doc1> ex:n 5 .\n'
+     '<doc1> ex:m -7 .\n',
+     [(_I("http://example.org/doc1"), "http://example.org/p", _I("http://example.org/doc2")),
+      (_I("http://example.org/doc1"), "http://example.org/n", _L("5", XS + "integer")),
+      (_I("http://example.org/doc1"), "http://example.org/m", _L("-7", XS + "integer"))]),
+    ("outside the dialect: literal glued to the final dot", '@prefix ex: <http://example.org/> .\nex:a ex:p "x".\n', "raise"),
+    ("outside the dialect: a literal as subject", '@prefix ex: <http://example.org/> .\n"x" ex:p ex:o .\n', "raise"),
+    ("outside the dialect: undeclared prefix", 'ex:a ex:p ex:o .\n', "raise"),
+]
+
+NT_DOCS = [
+    ("IRIs, blank nodes, plain / tagged / typed literals, comment line",
+     '<http://e/s> <http://e/p> <http://e/o> .\n'
+     '# comment mentioning <http://a> <http://b> <http://c>\n'
+     '\n'
+     '_:b1 <http://e/p> "x" .\n'
+     '<http://e/s> <http://e/q> "hola"@es .\n'
+     '<http://e/s> <http://e/r> "5"^^<http://www.w3.org/2001/XMLSchema#int> .\n',
+     [(_I("http://e/s"), "http://e/p", _I("http://e/o")),
+      (_B("_:b1"), "http://e/p", _L("x", XS + "string")),
+      (_I("http://e/s"), "http://e/q", _L("hola", RDFNS + "langString")),
+      (_I("http://e/s"), "http://e/r", _L("5", XS + "int"))], 0),
+    ("escapes stay escapes: \\\\u0022 and \\\\\" inside a literal do not end it",
+     '<http://e/s> <http://e/p> "say \\\\u0022hi\\\\u0022" .\n'
+     '<http://e/s> <http://e/q> "a \\\\"q\\\\" b"@en .\n',
+     [(_I("http://e/s"), "http://e/p", _L('say \\\\u0022hi\\\\u0022', XS + "string")),
+      (_I("http://e/s"), "http://e/q", _L(None, RDFNS + "langString"))], 0),
+    ("markers inside the lexical form",
+     '<http://e/s> <http://e/p> "1^^2 ok" .\n'
+     '<http://e/s> <http://e/q> "a@b c" .\n'
+     '<http://e/s> <http://e/r> "has > and < and _:x and . inside" .\n',
+     [(_I("http://e/s"), "http://e/p", _L("1^^2 ok", XS + "string")),
+      (_I("http://e/s"), "http://e/q", _L("a@b c", XS + "string")),
+      (_I("http://e/s"), "http://e/r", _L("has > and < and _:x and . inside", XS + "string"))], 0),
+]
+
+
+def _term(v):
+    """('new', 'IRI', args, kws) of the interpreted tune_* functions -> comparable term."""
+    if isinstance(v, tuple) and len(v) == 4 and v[0] == "new":
+        kw = dict(v[3])
+        a = list(v[2])
+        if v[1] == "IRI":
+            return _I(a[0] if a else kw.get("content"))
+        if v[1] == "Property":
+            return a[0] if a else kw.get("content")
+        if v[1] == "BNode":
+            return _B(kw.get("identifier", a[0] if a else None))
+        if v[1] == "Literal":
+            return _L(kw.get("content", a[0] if a else None), kw.get("elem_type", a[1] if len(a) > 1 else None))
+    return ("?", repr(v)[:60])
+
+
+def _same(got, want):
+    if len(got) != len(want):
+        return False
+    for g_, w_ in zip(got, want):
+        for a, b in zip(g_, w_):
+            if isinstance(b, tuple) and b[0] == "Literal" and b[1] is None:
+                if not (isinstance(a, tuple) and a[0] == "Literal" and a[2] == b[2]):
+                    return False
+            elif a != b:
+                return False
+    return True
+
+
+def _read_document(ctx, cname, doc, extra_env=None):
+    from .writer import _init_env
+    from ..abseval import Raised, Fork
+    cls = ctx.p.find_class(cname)
+    ev = Evaluator(ctx, max_depth=16)
+    selfenv = _init_env(ev, cls, {"raw_graph": doc})
+    selfenv["self._line_reader"] = {"read_lines()": [l + "\n" for l in doc.split("\n")[:-1]]}
+    selfenv.update(extra_env or {})
+    ev._decisions, ev._taken, ev.effects, ev._yields = [], [], [], []
+    try:
+        res = ev.call(cls.find_method("yield_triples"), {}, selfenv, 0)
+    except Raised as r:
+        return "raise", r.exc, selfenv
+    except Fork as fk:
+        raise AnalysisError("the reader consults a value the document table does not fix (%s)" % type(fk.site).__name__)
+    except AnalysisError as e:
+        if "does not terminate" in str(e):
+            return "diverges", str(e), selfenv
+        raise
+    return "ok", [tuple(_term(x) for x in t) for t in res], selfenv
+
+
+def ttl_document_table(ctx, clause):
+    """Whole small documents through BigTtlTriplesYielder.yield_triples (interpreted, line reader replaced by the lines of
+    the document): the triples must be those a standard Turtle parser produces; text outside the dialect must raise."""
+    f = ctx.p.find_class("BigTtlTriplesYielder").find_method("yield_triples")
+    obs = []
+    for label, doc, want in TTL_DOCS:
+        status, got, _ = _read_document(ctx, "BigTtlTriplesYielder", doc)
+        if want == "raise":
+            ok = status == "raise"
+            exp = "raises"
+        else:
+            ok = status == "ok" and _same(got, want)
+            exp = "%d triples as a Turtle parser reads them" % len(want)
+        obs.append(Ob(clause, "R-TABLE", "R-TABLE|ttl-document|%s" % label, f.loc(), ok,
+                      "document (%s) -> %s" % (label, exp) if ok else
+                      "document (%s): expected %s, the reader gives %s %s" % (label, want if want != "raise" else "an error", status, got)))
+    return obs
+
+
+def nt_document_table(ctx, clause):
+    """Whole small documents through NtTriplesYielder.yield_triples (interpreted): one triple per statement, in order, with
+    the node kinds / IRIs / labels / datatypes of the document, and zero error lines."""
+    f = ctx.p.find_class("NtTriplesYielder").find_method("yield_triples")
+    obs = []
+    for label, doc, want, errors in NT_DOCS:
+        doc = doc.replace("\\\\", "\\")
+        want = [tuple((("Literal", x[1].replace("\\\\", "\\") if isinstance(x[1], str) else x[1], x[2]) if isinstance(x, tuple) and x[0] == "Literal" else x)
+                      for x in t) for t in want]
+        status, got, env = _read_document(ctx, "NtTriplesYielder", doc)
+        nerr = env.get("self._error_triples")
+        ok = status == "ok" and _same(got, want) and nerr == errors
+        obs.append(Ob(clause, "R-TABLE", "R-TABLE|nt-document|%s" % label, f.loc(), ok,
+                      "document (%s) -> %d triples as written, %d error lines" % (label, len(want), errors) if ok else
+                      "document (%s): expected %s with %d error lines, the reader gives %s %s with %s error lines" % (
+                          label, want, errors, status, got, nerr)))
+    return obs
